@@ -22,6 +22,7 @@
    `Mesh::from_raw_parts` asserts `nodes.len() = refs.len() * node_count()`,
    so `chunks_exact(..).zip(refs)` yields exactly the chunks. *)
 From Coupe Require Import Lib.Prelude Gen.MeshTables.
+From Coq Require Import Sorting.Sorted.
 
 Definition block := (etype * list nat)%type.
 Record mesh := mkMesh { m_node_count : nat; m_topology : list block }.
@@ -324,6 +325,27 @@ Definition adjacent (dim : nat) (els : list (list nat)) (e1 e2 : nat) : bool :=
 (* the dual graph by its definition: brute force over all pairs *)
 Definition spec_rows (dim : nat) (els : list (list nat)) : list (list nat) :=
   map (fun e1 => filter (adjacent dim els e1) (seq 0 (length els))) (seq 0 (length els)).
+
+(* row i of a CSR matrix, by the usual definition *)
+Definition csr_row (g : csr) (i : nat) : list nat :=
+  let a := nth i (g_indptr g) 0 in
+  let b := nth (S i) (g_indptr g) 0 in
+  firstn (b - a) (skipn a (g_indices g)).
+
+(* the property, for a mesh of highest dimension [dim] whose elements of that
+   dimension are [els]: what `dual` returned is the graph of the definition,
+   and the two counts equal its number of vertices *)
+Definition C18_holds (dim : nat) (els : list (list nat)) (g : csr) (nb nu : nat) : Prop :=
+  let n := length els in
+  g_rows g = n /\ g_cols g = n /\ length (g_indptr g) = S n
+  /\ (exists rows, csr_rows (g_indptr g) (g_indices g) = Some rows /\ length rows = n
+        /\ (forall e1, e1 < n -> csr_row g e1 = nth e1 rows [])
+        /\ (forall e1, e1 < n -> StronglySorted lt (nth e1 rows []))
+        /\ (forall e1 e2, e1 < n ->
+              (In e2 (nth e1 rows []) <->
+               e2 < n /\ e1 <> e2 /\ dim <= shared (nth e1 els []) (nth e2 els []))))
+  /\ length (g_data g) = length (g_indices g) /\ Forall (eq ONE_BITS) (g_data g)
+  /\ nb = n /\ nu = n.
 
 (* usage contract (DESIGN §7 C18) *)
 Definition blocks_ok (topo : list block) : bool :=
